@@ -3,7 +3,7 @@
 # run is not disturbed by (and does not disturb) work going on in /verif and /repo.  One line per run on stdout.
 tier=$1; shift
 snap=/tmp/verif-snap-$$; wt=/tmp/repo-snap-$$
-rsync -a --exclude replays --exclude evidence /verif/ $snap/ && mkdir -p $snap/evidence $snap/replays
+rsync -a --exclude replays --exclude evidence --exclude "Audit_*" /verif/ $snap/; mkdir -p $snap/evidence $snap/replays
 git -C /repo worktree add --detach $wt HEAD >/dev/null 2>&1 || exit 2
 export NAUNET_REPO=$wt PYTHONPATH=$wt
 cd $snap
